@@ -43,7 +43,7 @@ CONSTANTS Verbs,       \* verbs the primary binding may use
           PathValIds,  \* keys of PV: values path-capable leaves may take
           VarLeaves,   \* leaves the request builder varies (all others stay unset)
           Numerics,    \* subset of BOOLEAN
-          RespTypes,   \* subset of {"A", "B"}
+          RespTypes,   \* subset of {"A", "B", "P"}: two messages of the API itself; P = a message of a dependency package (a plain protobuf class in the emitted code)
           ReplyIds,    \* keys of ReplyTab
           Calls,       \* calls per session
           Mutant       \* "none" for the real design; anything else is a self-test mutant TLC must reject
@@ -65,6 +65,7 @@ LeafTab ==
   @@ "flag"            :> Lf("flag",       "flag",           "",         "bool",  "bool")
   @@ "ids"             :> Lf("ids",        "ids",            "",         "repi",  "int32")
   @@ "opt_n"           :> Lf("opt_n",      "optN",           "",         "opt",   "int32")
+  @@ "opt_s"           :> Lf("opt_s",      "optS",           "",         "opt",   "string")
   @@ "label_text"      :> Lf("label_text", "labelText",      "",         "str",   "string")
   @@ "r_double"        :> Lf("r_double",   "rDouble",        "",         "float", "double")
   @@ "r_float"         :> Lf("r_float",    "rFloat",         "",         "float", "float")
@@ -83,7 +84,7 @@ LeafTab ==
   @@ "r_sint64"        :> Lf("r_sint64",   "rSint64",        "",         "int",   "sint64")
 Leaves == DOMAIN LeafTab
 LeafSeq == << "name", "parent", "class", "inner.name", "inner.sub_title", "inner.kind", "inner.tags", "kind", "flag",
-              "ids", "opt_n", "label_text", "r_double", "r_float", "r_int64", "r_uint64", "r_int32", "r_fixed64",
+              "ids", "opt_n", "opt_s", "label_text", "r_double", "r_float", "r_int64", "r_uint64", "r_int32", "r_fixed64",
               "r_fixed32", "r_bool", "r_string", "r_bytes", "r_uint32", "r_sfixed32", "r_sfixed64", "r_sint32",
               "r_sint64" >>
 Kind(l) == LeafTab[l].kind
@@ -116,8 +117,9 @@ SetVals(l) == CASE Kind(l) = "segs"  -> {PV[i] : i \in PathValIds}
                 [] Kind(l) = "bytes" -> {<<"YWI=">>}                 \* base64 text of the two bytes "ab"
                 [] Kind(l) = "repi"  -> {<<"1", "2">>, <<"3">>}
                 [] Kind(l) = "reps"  -> {<<"x", "y">>}
-                [] Kind(l) = "opt"   -> {<<"0">>, <<"5">>}            \* explicit presence: a set 0 is not "unset"
-Default(l) == CASE Kind(l) \in {"int", "float", "opt"} -> "0"
+                [] Kind(l) = "opt"   -> IF LeafTab[l].ptype = "string" THEN {<<"">>, <<"t2">>}     \* a set empty string is not "unset" either
+                                        ELSE {<<"0">>, <<"5">>}          \* explicit presence: a set 0 is not "unset"
+Default(l) == CASE Kind(l) \in {"int", "float"} \/ (Kind(l) = "opt" /\ LeafTab[l].ptype # "string") -> "0"
                 [] Kind(l) = "bool" -> "false"
                 [] OTHER -> ""                                          \* segs, str, bytes
 
